@@ -738,11 +738,34 @@ func (c *Ctx) successSites(fn *ssa.Function) []ssa.Instruction {
 				out = append(out, term)
 			}
 		default:
-			if onlyWhenNonNil(v, rv.At) {
+			if neverNilError(rv.Val) || onlyWhenNonNil(v, rv.At) {
 				continue
 			}
 			out = append(out, rv.At)
 		}
 	}
 	return out
+}
+
+// neverNilError: the value is built by a constructor that never returns nil
+func neverNilError(v ssa.Value) bool {
+	if mi, ok := v.(*ssa.MakeInterface); ok {
+		if _, isPtr := mi.X.Type().Underlying().(*types.Pointer); isPtr {
+			_, isAlloc := mi.X.(*ssa.Alloc)
+			return isAlloc
+		}
+		return true // a non-pointer concrete value boxed into the interface
+	}
+	if cl, ok := strip(v).(*ssa.Call); ok {
+		if f := cl.Common().StaticCallee(); f != nil {
+			switch extName(f) {
+			case "fmt.Errorf", "errors.New":
+				return true
+			}
+			if isAnchor(f, "util.NewYamlError") {
+				return true
+			}
+		}
+	}
+	return false
 }
